@@ -20,6 +20,8 @@ a scratch working directory with FEND_CONFIG_DIR / FEND_CACHE_DIR set):
       expressions vs fend_core configured with the *model's* settings;
   X   exchange-rate settings (enable-internet-access, exchange-rate-source, exchange-rate-max-age): 36
       configs x 2 conversions on prepared EU / UN cache files vs the C20 model + fend_core;
+  D   which config file is read: FEND_CONFIG_DIR names with spaces / non-ASCII / non-UTF-8 bytes, config present /
+      absent / malformed, decoy configs in $XDG_CONFIG_HOME/fend and $HOME/.config/fend;
   C   colours: with enable-colors = 'always' the output with SGR sequences
       removed is the plain result, and each sequence is the configured style.
 Spec (independent of the model): the property statement read directly --
@@ -912,6 +914,72 @@ def rates_settings_layer(c, run, stats):
 
 
 # ---------------------------------------------------------------------------
+# D: which config file is read
+
+DIRNAMES = [b'plain', b'with space', 'confié-€'.encode('utf-8'), b'not-utf8-\xff\xfe', b'semi;colon=and$dollar']
+
+def which_config_layer(c, run, stats):
+    """FEND_CONFIG_DIR with awkward names holding a config / no config / a malformed one, while
+    $XDG_CONFIG_HOME/fend and $HOME/.config/fend hold a decoy config with other settings: only the designated
+    directory counts (absent or malformed => defaults, never the decoy)."""
+    root = os.path.join(run.scratch, 'whichcfg').encode()
+    desig_toml = b'decimal-separator-style = "comma"\n[[custom-units]]\nsingular = "desig"\nplural = "desigs"\ndefinition = "5 m"\n'
+    decoy_toml = b'coulomb-and-farad = true\n[[custom-units]]\nsingular = "decoyu"\nplural = "decoyus"\ndefinition = "7 m"\n'
+    exprs = ['1,5 + 1', '1 C', '2 desig to m', '2 decoyu to m']
+    settings = {'present': [0, 1, [[b'desig', b'desigs', b'5 m', b'none']]], 'absent': [0, 0, []], 'malformed': [0, 0, []], 'no-dir': [0, 0, []]}
+    hl = {}
+    for st in settings.values():
+        for e in exprs:
+            hl.setdefault(harness_line(st, [e.encode()]), None)
+    keys = list(hl)
+    for k, o in zip(keys, c.impl('cli', keys)):
+        hl[k] = o
+    jobs, meta = [], []
+    for di, dn in enumerate(DIRNAMES):
+        for state in settings:
+            for xdg in (True, False):
+                base = os.path.join(root, b'%d_%s_%d' % (di, state.encode(), xdg))
+                desig = os.path.join(base, dn)
+                home, xdgd = os.path.join(base, b'home'), os.path.join(base, b'xdg')
+                if state != 'no-dir':
+                    os.makedirs(desig)
+                if state == 'present':
+                    open(os.path.join(desig, b'config.toml'), 'wb').write(desig_toml)
+                elif state == 'malformed':
+                    open(os.path.join(desig, b'config.toml'), 'wb').write(b'decimal-separator-style = \n[[[')
+                for dec in (os.path.join(home, b'.config', b'fend'), os.path.join(xdgd, b'fend')):
+                    os.makedirs(dec)
+                    open(os.path.join(dec, b'config.toml'), 'wb').write(decoy_toml)
+                env = {'PATH': os.environ.get('PATH', '/usr/bin:/bin'), 'HOME': os.fsdecode(home), 'FEND_CONFIG_DIR': os.fsdecode(desig),
+                       'FEND_CACHE_DIR': run.cache, 'RUST_BACKTRACE': '0', 'NO_COLOR': '1'}
+                if xdg:
+                    env['XDG_CONFIG_HOME'] = os.fsdecode(xdgd)
+                for e in exprs:
+                    jobs.append((['-e', e], None, env))
+                    meta.append((dn, state, xdg, e))
+    outs = run.run(jobs)
+    for (dn, state, xdg, e), (rc, so, se) in zip(meta, outs):
+        c.note_case('D:%r:%s:%s:%s' % (dn, state, xdg, e), True, 'D-config-dir-' + state)
+        res = try_parse(hl[harness_line(settings[state], [e.encode()])])
+        want = spec_out(res) if isinstance(res, list) else None
+        rep = {'layer': 'D which config file is read', 'FEND_CONFIG_DIR_name_hex': dn.hex(), 'designated_config': state, 'XDG_CONFIG_HOME_set': xdg,
+               'expr': e, 'exit': rc, 'stdout': so.decode('utf-8', 'replace')[:200], 'stderr': se.decode('utf-8', 'replace')[:500], 'expected': repr(want)[:300],
+               'decoy': 'coulomb-and-farad + unit decoyu in $XDG_CONFIG_HOME/fend and $HOME/.config/fend'}
+        if rc not in (0, 1) or b'panicked' in se:
+            c.violation('cli-crashes-config-dir', dict(rep, kind='impl-vs-spec'))
+            continue
+        tail = se[len(se) - len(want[2]):] if (want and want[2]) else b''
+        diag = se[:len(se) - len(tail)]
+        ok = want is not None and (rc, so, tail) == want
+        ok = ok and ((state == 'malformed') == diag.startswith(b'Error: invalid config file')) and (state == 'malformed' or diag == b'')
+        if not ok:
+            c.violation('config-from-another-directory', dict(rep, kind='impl-vs-spec',
+                        what='the settings in effect are not those of the designated directory (or its absence / the defaults)'))
+        else:
+            stats['D-' + state] += 1
+
+
+# ---------------------------------------------------------------------------
 # colours
 
 def colours_layer(c, run, stats):
@@ -1004,6 +1072,8 @@ def check(c):
     config_layer(c, run, r, 450 if quick else 4000, stats)
     # ---- X ----
     rates_settings_layer(c, run, stats)
+    # ---- D ----
+    which_config_layer(c, run, stats)
     # ---- C ----
     colours_layer(c, run, stats)
     c.vm_cross_sample('cli', POOL[0], POOL[1], k=25)
